@@ -29,6 +29,7 @@ structure St where
   -- the message that has to stay available
   fed : List Byte := []
   got : Nat := 0
+  skip : Nat := 0                      -- S: empty frames (stray delimiters) the decoder has skipped with BadValue
   avail : Option (List Byte) := none
   sent : Nat := 0
   -- stream glue (`st` ops): the sender's queue as `mpt_stream_push` drives it, the bytes flushed, the number
@@ -50,6 +51,7 @@ structure St where
   -- data written since the last end of message; part of that message flushed already
   stInMsg : Bool := false
   stTorn : Bool := false
+  stEof : Bool := false
   deriving Inhabited
 
 /-- bytes as text: `-` empty, hex up to 96 bytes, else `<len>:<adler32 parts>` -/
@@ -146,7 +148,7 @@ def dqLine (r : String) (q : DecodeQueue) (ret : String) (alts : String) : Strin
 def availAlts (s : St) : String :=
   match s.avail with
   | some m => s!"* ; avail={showB m}"
-  | none => if (s.dq.codec.isSome ∨ s.dq.command) ∧ !s.scripted then "* ; avail=none" else "* ; *"
+  | none => if s.dq.codec.isSome ∨ s.dq.command then "* ; avail=none" else "* ; *"
 
 /-- the frames and messages a reference receiver sees in the bytes fed so far; `none` when a complete
     frame is malformed (outside this property) -/
@@ -207,7 +209,35 @@ def mayAsk (s : St) (frames : List (List Byte)) : Bool :=
     else false
   | none => s.dq.command && decide (s.dq.ring.max - s.dq.ring.len < 2)     -- head room for the header
 
+/-- scripted wire bytes (`dq feed`, arbitrary and malformed input): the complete frames fed so far and the
+    reference decoding of each (`none` = the reference decoder rejects it) -/
+def fedFrames (s : St) : Option (List (List Byte) × List (Option (List Byte))) :=
+  if !s.scripted then none else
+  let frames := (splitFrames s.fed).1
+  match s.dq.codec with
+  | some v => some (frames, frames.map (dec v))
+  | none => if s.dq.command then some (frames, frames.map fun f => some (cmdHeader ++ f.dropLast)) else none
+
+/-- may the reader ask for space while it works on frame `f` (see `mayAsk`) -/
+def mayAskFor (s : St) (f : List Byte) : Bool :=
+  match s.dq.codec with
+  | some v => v.isZpe && decide (s.dq.ring.max - s.dq.ring.len < pairBlocks v.maxlen f 0)
+  | none => s.dq.command && decide (s.dq.ring.max - s.dq.ring.len < 2)
+
 def recvAlts (s : St) : String × Option (List Byte) :=
+  match fedFrames s with
+  | some (frames, ds) =>
+    -- arbitrary bytes: the frame at the input position is the one behind the delivered and the skipped ones
+    let idx := s.got + s.skip
+    let f := (frames[idx]?).getD (splitFrames s.fed).2
+    let ask := if mayAskFor s f then ["ret=MissingBuffer guards=ok ; *"] else []
+    match ds[idx]? with
+    | some (some m) => (" || ".intercalate ([s!"ret=1 msg={showB m} guards=ok ; avail={showB m}"] ++ ask), some m)
+    | some none =>
+      -- malformed: an error, never a message, never "need more data"
+      (" || ".intercalate (["ret=BadValue guards=ok ; avail=none", "ret=MissingData guards=ok ; avail=none"] ++ ask), none)
+    | none => (" || ".intercalate (["ret=0 guards=ok ; avail=none", "ret=MissingData guards=ok ; avail=none"] ++ ask), none)
+  | none =>
   match specMsgs s with
   | none => ("* ; *", none)
   | some (frames, ms) =>
@@ -215,6 +245,18 @@ def recvAlts (s : St) : String × Option (List Byte) :=
     match ms[s.got]? with
     | some m => (" || ".intercalate ([s!"ret=1 msg={showB m} guards=ok ; avail={showB m}"] ++ ask), some m)
     | none => (" || ".intercalate (["ret=0 guards=ok ; avail=none", "ret=MissingData guards=ok ; avail=none"] ++ ask), none)
+
+/-- S for `dq drain` on scripted bytes: the messages of the well-formed frames up to the first frame that is
+    malformed or incomplete, then the reason for stopping -/
+def drainAltsFed (s : St) (ds : List (Option (List Byte))) : String :=
+  let rest := ds.drop (s.got + s.skip)
+  let ms := (rest.takeWhile Option.isSome).filterMap id
+  let txt := if ms.isEmpty then "-" else ",".intercalate (ms.map showB)
+  let stops := match rest.drop ms.length with
+    | [] => ["0", "MissingData"]
+    | _ => ["BadValue", "MissingData"]
+  let stops := stops ++ (match s.dq.codec with | some v => if v.isZpe then ["MissingBuffer"] else [] | none => ["MissingBuffer"])
+  " || ".intercalate (stops.map fun e => s!"msgs={txt} n={ms.length} last={e} guards=ok ; avail=none")
 
 /-- the reader's loop: receive until nothing more is complete; space is granted when asked for -/
 def drain (q : DecodeQueue) : Nat → Nat → List String → Res (DecodeQueue × Int × List String)
@@ -290,7 +332,7 @@ def xdrain (q : DecodeQueue) : Nat → Nat → List String → Res (DecodeQueue 
 def stNew (s : St) (name : String) (mode : Nat) : St × String :=
   match Variant.ofName name with
   | some v =>
-    ({ s with txq := { codec := some (.cobs v) }, txWire := [], moved := 0, loaded := 0, stSent := [], stCur := [], stGot := 0, stReady := true, stMode := mode, stLive := List.range 9, stLogged := 0, stBlocked := false, stInMsg := false, stTorn := false },
+    ({ s with txq := { codec := some (.cobs v) }, txWire := [], moved := 0, loaded := 0, stSent := [], stCur := [], stGot := 0, stReady := true, stMode := mode, stLive := List.range 9, stLogged := 0, stBlocked := false, stInMsg := false, stTorn := false, stEof := false },
      stLine "ok")
   | none => (s, "bad-op")
 
@@ -377,9 +419,11 @@ def step (s : St) (w : List String) : St × String :=
     match n.toNat? with
     | some n =>
       if n > 1048576 then (s, "bad-op") else
-      let k := min n (s.txWire.length - s.moved)
+      let k := if s.stEof then 0 else min n (s.txWire.length - s.moved)
       ({ s with moved := s.moved + k }, stLine s!"ok n={k}")
     | none => (s, "bad-op")
+  | ["st", "eof"] =>
+    if !s.stReady then (s, "bad-op") else ({ s with stEof := true }, stLine "ok")
   | ["st", "poll"] =>
     if !s.stReady then (s, "bad-op") else ({ s with loaded := s.moved }, stLine "ok")
   | ["st", "dispatch"] =>
@@ -505,7 +549,7 @@ def step (s : St) (w : List String) : St × String :=
       if o > m ∨ a > 15 then (s, "bad-op") else
       let q : DecodeQueue := { ring := { store := List.replicate m 0, len := 0, off := o }, codec := cv, base := a,
                                command := name = "command" }
-      let s' : St := { s with dq := q, dqReady := true, fed := [], got := 0, avail := none }
+      let s' : St := { s with dq := q, dqReady := true, fed := [], got := 0, skip := 0, avail := none }
       (s', dqLine "ok" q "0" "* ; *")
     | _, _, _, _ => (s, "bad-op")
   | ["dq", "feed", dat] =>
@@ -567,13 +611,17 @@ def step (s : St) (w : List String) : St × String :=
     match queueRecv s.dq with
     | .ok (q, r) =>
       let rs := if r > 0 then "1" else errName r
-      let s' := { s with dq := q, got := if r > 0 then s.got + 1 else s.got, avail := if r > 0 then next else none }
+      let s' := { s with dq := q, got := if r > 0 then s.got + 1 else s.got, avail := if r > 0 then next else none,
+                         skip := if s.scripted ∧ r = Err.BadValue.code then s.skip + 1 else s.skip }
       let msg := if r > 0 then s!" msg={msgText q}" else ""
       (s', s!"R ret={rs}{msg} guards=ok | C avail={msgText q} | I {dqI rs q} | S {alts}")
     | x => (s, dqLine s!"model-{resName x}" s.dq (resName x) alts)
   | ["dq", "drain"] =>
     if !s.dqReady then (s, "bad-op") else
-    let alts := match specMsgs s with
+    let alts := match fedFrames s with
+      | some (_, ds) => drainAltsFed s ds
+      | none =>
+      match specMsgs s with
       | none => "* ; *"
       | some (_, ms) =>
         let rest := ms.drop s.got
@@ -583,7 +631,8 @@ def step (s : St) (w : List String) : St × String :=
     | .ok (q, r, msgs) =>
       let rs := if r > 0 then "1" else errName r
       let txt := if msgs.isEmpty then "-" else ",".intercalate msgs
-      let s' := { s with dq := q, got := s.got + msgs.length, avail := none }
+      let s' := { s with dq := q, got := s.got + msgs.length, avail := none,
+                         skip := if s.scripted ∧ r = Err.BadValue.code then s.skip + 1 else s.skip }
       (s', s!"R msgs={txt} n={msgs.length} last={rs} guards=ok | C avail={msgText q} | I {dqI rs q} | S {alts}")
     | x => (s, dqLine s!"model-{resName x}" s.dq (resName x) alts)
   | ["dq", "shift"] =>
@@ -609,6 +658,30 @@ def step (s : St) (w : List String) : St × String :=
         ({ s with dq := q }, s!"R ret={errName r} out={shown} guards=ok | C avail={msgText q} | I {dqI (errName r) q} | S {availAlts s}")
       | x => (s, dqLine s!"model-{resName x}" s.dq (resName x) (availAlts s))
     | none => (s, "bad-op")
+  | ["dq", "peek", n, "nodst"] =>
+    if !s.dqReady then (s, "bad-op") else
+    match n.toNat? with
+    | some n =>
+      if n > 1048576 then (s, "bad-op") else
+      match queuePeek s.dq n false with
+      | .ok (q, r, _) =>
+        ({ s with dq := q }, s!"R ret={errName r} out=- guards=ok | C avail={msgText q} | I {dqI (errName r) q} | S {availAlts s}")
+      | x => (s, dqLine s!"model-{resName x}" s.dq (resName x) (availAlts s))
+    | none => (s, "bad-op")
+  | ["dq", "get", a, b, how] =>
+    if !s.dqReady then (s, "bad-op") else
+    match a.toNat?, b.toNat? with
+    | some off, some take =>
+      if off > 1048576 ∨ take > 1048576 then (s, "bad-op") else
+      -- the bytes of the range, exactly when the range lies inside the data (and a second part has its vector)
+      let inside := off + take ≤ s.dq.ring.len
+      let alts := if !inside then s!"ret=-1 msg=- guards=ok ; * || ret=-2 msg=- guards=ok ; *"
+        else s!"ret=0 msg={showB ((s.dq.ring.content.drop off).take take)} guards=ok ; * || ret=1 msg={showB ((s.dq.ring.content.drop off).take take)} guards=ok ; * || ret=-3 msg=- guards=ok ; *"
+      match messageGet s.dq.ring off take (how != "novec") with
+      | .ok (c, bytes) =>
+        (s, s!"R ret={c} msg={if c < 0 then "-" else showB bytes} guards=ok | C avail={msgText s.dq} | I {dqI "0" s.dq} | S {alts}")
+      | x => (s, dqLine s!"model-{resName x}" s.dq (resName x) alts)
+    | _, _ => (s, "bad-op")
   | ["sync"] =>
     let alts := if s.variant.isNone ∧ !s.cmd then "* ; *" else s!"sent={s.sent} got={s.sent} left=0 ; *"
     (s, s!"R sent={s.sent} got={s.got} left={s.wire.length - s.wirepos} | C - | I - | S {alts}")
